@@ -99,3 +99,21 @@ Print Assumptions C18_map_lookup_ignores_case.
 Print Assumptions C18_map_lookup_any_order.
 Print Assumptions C18_map_automatic_variables.
 Print Assumptions C18_map_lookup_order_dependent_refuted.
+
+(* State space: the objects this property's model stands for have exactly the fields the model accounts for (StateSpace.v;
+   gen/StateSpaceGen.v is regenerated from the Go sources on every run). A new field - a cache, a memo, a counter - is state
+   the model does not have, so the theorems above would no longer be about the object. *)
+From Coq Require Import String.
+Require Import StateSpaceGen StateSpace.
+Open Scope string_scope.
+Theorem C18_state_space :
+  fields_of "calculator/variables.VariableCollection" = fields ["variables"] /\
+  fields_of "calculator/variables.Variable" = fields ["name"; "value"] /\
+  fields_of "calculator/functions.FunctionCollection" = fields ["functions"] /\
+  fields_of "calculator/functions.DelegatedFunction" = fields ["name"; "calculator"] /\
+  fields_of "calculator/parsers.ExpressionParser" = fields ["tokenizer"; "expression"; "originalTokens"; "initialTokens"; "currentTokenIndex"; "variableNames"; "resultTokens"] /\
+  fields_of "calculator.ExpressionCalculator" = fields ["defaultVariables"; "defaultFunctions"; "variantOperations"; "parser"; "autoVariables"] /\
+  fields_of "mustache/parsers.MustacheParser" = fields ["tokenizer"; "template"; "originalTokens"; "initialTokens"; "currentTokenIndex"; "variableNames"; "resultTokens"] /\
+  fields_of "mustache.MustacheTemplate" = fields ["defaultVariables"; "parser"; "autoVariables"].
+Proof. vm_compute. repeat split; reflexivity. Qed.
+Print Assumptions C18_state_space.
